@@ -379,3 +379,181 @@ Proof. intros H. unfold shard_run_aborted, shard_adds in H.
   pose proof (wf_P_add_nodes e stream _ _ _ _ W) as HF. rewrite Forall_forall in HF. specialize (HF p Hp).
   intros Hc. rewrite Hc in HF. exact HF. Qed.
 End ShardedComplete.
+
+(* ---------- unsharded adds ---------- *)
+Section SingleShape.
+Variable e : env.
+
+(* where the puts of an unsharded add go: the local daemon only (local=true), else inside the allocation *)
+Definition dests_ok (ds D : list N) : Prop := if e_local e then D = [0] else incl D ds.
+Definition put_ok (ds : list N) (ev : event) : Prop := match ev with EPut _ D _ => dests_ok ds D | _ => False end.
+Definition SInv2 (st : single_st) : Prop :=
+  match sd_dests st with
+  | None => sd_io st = io0
+  | Some ds => e_alloc e 0 = Some ds /\ dests_ok ds (sd_ba st) /\
+               exists P, chron (sd_io st) = EAlloc (Some ds) :: P /\ Forall (put_ok ds) P
+  end.
+
+Lemma ba_keeps_dests ds D out s : dests_ok ds D -> ba_add out D = Some s -> dests_ok ds s.
+Proof. unfold dests_ok. intros HD H. apply ba_add_some in H. destruct H as (Hs & _ & _ & Hincl & Hne).
+  destruct (e_local e).
+  - subst D. cbn [filter] in Hs. destruct (negb (is_rpc (out 0))); [exact Hs | contradiction].
+  - eapply incl_tran; eauto. Qed.
+
+Lemma single_add_inv2 c st st' : SInv2 st -> single_add e c st = (None, st') -> SInv2 st' /\ sd_dests st' <> None.
+Proof. unfold SInv2, single_add. intros I H. destruct (sd_dests st) as [ds|] eqn:Eds.
+  - destruct I as (Ha0 & Hba & P & HT & HP).
+    destruct (do_put e (CData c) (sd_ba st) (sd_io st)) as [[ba'|] s1] eqn:Hp; [|discriminate].
+    destruct (do_put_ext e Ptrue _ _ _ _ _ Hp) as [[Hx _] Hr]. injection H as <-. cbn [sd_dests sd_ba sd_io].
+    split; [|discriminate]. split; [exact Ha0|]. split; [eapply ba_keeps_dests; eauto|].
+    exists (P ++ [EPut (CData c) (sd_ba st) (Some ba')]). split; [rewrite Hx, HT; reflexivity|].
+    apply Forall_app. split; [exact HP|]. constructor; [exact Hba|constructor].
+  - rewrite I in H. destruct (do_alloc e io0) as [[ds|] s1] eqn:Ha; [|discriminate].
+    destruct (do_alloc_ext e Ptrue _ _ _ Ha) as [[Hx _] Hr]. cbn [na io0] in Hr.
+    assert (Hok : dests_ok ds (if e_local e then [0] else ds)) by (unfold dests_ok; destruct (e_local e); [reflexivity|apply incl_refl]).
+    destruct (do_put e (CData c) (if e_local e then [0] else ds) s1) as [[ba'|] s2] eqn:Hp; [|discriminate].
+    destruct (do_put_ext e Ptrue _ _ _ _ _ Hp) as [[Hx2 _] Hr2]. injection H as <-. cbn [sd_dests sd_ba sd_io].
+    split; [|discriminate]. split; [now symmetry|]. split; [eapply ba_keeps_dests; eauto|].
+    exists [EPut (CData c) (if e_local e then [0] else ds) (Some ba')]. split; [rewrite Hx2, Hx; reflexivity|].
+    constructor; [exact Hok|constructor]. Qed.
+
+Lemma add_all_inv2 bs : forall st st', (forall b, In b bs -> bswallow b = false) -> SInv2 st ->
+  add_all (fun b => single_add e (bcid b)) bs st = (None, st') ->
+  SInv2 st' /\ (sd_dests st <> None \/ bs <> [] -> sd_dests st' <> None).
+Proof. induction bs as [|b r IH]; intros st st' Hsw I H; cbn [add_all] in H.
+  - injection H as <-. split; auto. intros [A|A]; [exact A|congruence].
+  - destruct (single_add e (bcid b) st) as [[er|] st1] eqn:Ha.
+    + rewrite (Hsw b (or_introl eq_refl)) in H. discriminate.
+    + destruct (single_add_inv2 _ _ _ I Ha) as [I1 N1].
+      destruct (IH st1 st' (fun x Hx => Hsw x (or_intror Hx)) I1 H) as [I' N']. split; auto. Qed.
+
+(* the trace of a successful unsharded add *)
+Theorem single_shape stream root c t : (forall b, In b stream -> bswallow b = false) ->
+  single_run e stream root = (ROk c, t) ->
+  c = CData root /\
+  ((stream = [] /\ t = [EPin (single_pin e root []) true]) \/
+   (stream <> [] /\ exists ds P, e_alloc e 0 = Some ds /\ Forall (put_ok ds) P /\
+                               t = EAlloc (Some ds) :: P ++ [EPin (single_pin e root ds) true])).
+Proof. intros Hsw H. unfold single_run, single_adds in H.
+  destruct (add_all (fun b => single_add e (bcid b)) stream (mksingle None [] io0)) as [[er|] st1] eqn:Ha; [discriminate|].
+  assert (I0 : SInv2 (mksingle None [] io0)) by reflexivity.
+  destruct (add_all_inv2 stream _ _ Hsw I0 Ha) as [I1 N1]. cbn [sd_dests] in N1.
+  unfold single_finalize in H.
+  set (al := match sd_dests st1 with Some ds => ds | None => [] end) in *.
+  set (p := mkpin (CData root) TData NBase al (-1)%Z None (e_rmin e) (e_rmax e) (e_limit e)) in *.
+  assert (Hc : clear_allocs p = single_pin e root al)
+    by (unfold clear_allocs, p, single_pin; cbn [prmin]; destruct (e_rmin e <? 0)%Z; reflexivity).
+  destruct (do_pin e p (sd_io st1)) as [ok s2] eqn:Hpin.
+  pose proof (do_pin_ext e Ptrue _ _ _ _ Hpin I) as [HT _]. rewrite Hc in HT.
+  destruct ok; [|discriminate]. injection H as <- <-. split; [reflexivity|]. cbn [sd_io]. fold (chron s2). rewrite HT.
+  destruct stream as [|b0 rest].
+  - left. split; [reflexivity|]. cbn [add_all] in Ha. injection Ha as <-. reflexivity.
+  - right. split; [discriminate|]. unfold SInv2 in I1. unfold al.
+    destruct (sd_dests st1) as [ds|]; [|exfalso; apply N1; [right; discriminate | reflexivity]].
+    destruct I1 as (Ha0 & _ & P & HP & HF). exists ds, P. split; [exact Ha0|]. split; [exact HF|]. now rewrite HP. Qed.
+
+(* every pin call of an unsharded add is the data pin of the root *)
+Lemma single_all_pins_data stream root r t : (forall b, In b stream -> bswallow b = false) ->
+  single_run e stream root = (r, t) -> forall q, In q (all_pins t) -> pty q = TData.
+Proof. intros Hsw H. unfold single_run, single_adds in H.
+  assert (I0 : SInv e [] (mksingle None [] io0)).
+  { constructor; try reflexivity; [constructor|unfold WfS; simpl; tauto|simpl; tauto]. }
+  destruct (add_all (fun b => single_add e (bcid b)) stream (mksingle None [] io0)) as [[er|] st1] eqn:Ha;
+    destruct (add_all_single_spec e _ _ _ _ _ I0 Hsw Ha) as (_ & Hn & _ & _).
+  - injection H as <- <-. fold (chron (sd_io st1)). rewrite Hn. intros q [].
+  - unfold single_finalize in H.
+    set (p := mkpin (CData root) TData NBase _ (-1)%Z None (e_rmin e) (e_rmax e) (e_limit e)) in *.
+    destruct (do_pin e p (sd_io st1)) as [ok s2] eqn:Hpin.
+    pose proof (do_pin_ext e Ptrue _ _ _ _ Hpin I) as [HT _].
+    assert (Et : t = chron s2) by (destruct ok; injection H as <- <-; reflexivity). rewrite Et, HT, all_pins_app, Hn.
+    intros q [<-|[]]. unfold clear_allocs. destruct (prmin p <? 0)%Z; reflexivity. Qed.
+End SingleShape.
+
+Section SingleComplete.
+Variable i : input.
+Hypothesis Hstrict : strict (i_stream i).
+Hypothesis Hns : i_shard i = false.
+
+Lemma single_depth_complete r t : (forall q, In q (all_pins t) -> pty q = TData) -> depth_okb i r t = true.
+Proof. intros Hd. unfold depth_okb. apply forallb_forall. intros q Hq. unfold is_shard_pin. now rewrite (Hd q Hq). Qed.
+
+Lemma walk_put_ok ew ds P : e_local (env_of i) = false -> Forall (put_ok (env_of i) ds) P ->
+  allocs_walk ew ds P = true /\ walk_cur ds P = ds.
+Proof. intros Hl HP. apply (only_puts_walk ew ds ds); [|apply incl_refl].
+  eapply Forall_impl; [|exact HP]. intros ev Hev. destruct ev; try contradiction. unfold put_ok, dests_ok in Hev. now rewrite Hl in Hev. Qed.
+
+Theorem single_model_passes_l r t : single_run (env_of i) (i_stream i) (i_root i) = (r, t) ->
+  delivered_okb i r t = true /\ partition_okb i r t = true /\ under_limit_okb i r t = true /\ depth_okb i r t = true /\
+  final_pins_okb i r t = true /\ failure_okb i r t = true.
+Proof. intros H. set (e := env_of i) in *.
+  assert (H11 : partition_okb i r t = true) by (unfold partition_okb; rewrite Hns; cbn [negb]; now rewrite orb_true_r).
+  assert (H12 : under_limit_okb i r t = true) by (unfold under_limit_okb; now rewrite Hns).
+  assert (H13 : depth_okb i r t = true) by (apply single_depth_complete; eapply single_all_pins_data; eauto).
+  destruct r as [c|er].
+  - destruct (delivered_equals_produced_single_l e _ _ Hstrict c t H) as [Hd Hp].
+    destruct (single_shape e _ _ c t Hstrict H) as [Hc Hshape].
+    split; [|split; [exact H11|split; [exact H12|split; [exact H13|split; [|reflexivity]]]]].
+    + unfold delivered_okb. cbn [is_ok negb]. cbv zeta. rewrite Hns, data_of_puts_from, Hd, listN_eqb_refl. cbn [andb]. rewrite andb_true_r.
+      apply andb_true_iff. split.
+      * apply forallb_forall. intros [[cc ds] j] Hx. destruct (puts_from_nth t 0 cc ds j Hx) as [k [res [Hn ->]]]. rewrite N.add_0_l.
+        destruct (Hp k cc ds res Hn) as [d [Hd1 Hd2]]. apply existsb_exists. exists d. split; auto. fold e. now rewrite Hd2.
+      * apply andb_true_iff. split.
+        -- match goal with |- negb ?a || _ = true => destruct a eqn:M; [|reflexivity] end. reflexivity.
+        -- apply forallb_forall. intros b Hb. apply forallb_forall. intros l Hl.
+           match goal with |- negb ?a || _ = true => destruct a eqn:M; [|reflexivity] end. reflexivity.
+    + unfold final_pins_okb. cbn [is_ok negb]. cbv zeta. rewrite Hc, cid_eqb_refl, Hns. cbn [andb].
+      assert (Hpin : forall al, let p := single_pin e (i_root i) al in
+                cid_eqb (pcid p) (CData (i_root i)) && ptype_eqb (pty p) TData && pname_eqb (pnm p) NBase && Z.eqb (pdepth p) (-1)
+                && ocid_eqb (pref p) None && Z.eqb (prmin p) (i_rmin i) && Z.eqb (prmax p) (i_rmax i) && N.eqb (pssize p) (i_limit i) = true).
+      { intros al. cbv zeta. cbn [single_pin pcid pty pnm pdepth pref prmin prmax pssize ptype_eqb pname_eqb ocid_eqb Z.eqb Pos.eqb].
+        unfold e. cbn [env_of e_rmin e_rmax e_limit]. now rewrite cid_eqb_refl, !Z.eqb_refl, N.eqb_refl. }
+      destruct Hshape as [[Hnil ->]|[Hne [ds [P [Ha0 [HP ->]]]]]].
+      * cbn [ok_pins flat_map app]. specialize (Hpin []). cbv zeta in Hpin. rewrite Hpin. cbn [andb puts_from forallb].
+        rewrite Hnil. cbn [single_pin pallocs pty allocs_walk].
+        destruct (i_local i); destruct (e_rmin e <? 0)%Z eqn:Ew; unfold e in Ew; cbn [env_of e_rmin] in Ew; rewrite ?Ew; reflexivity.
+      * assert (Eok : ok_pins (EAlloc (Some ds) :: P ++ [EPin (single_pin e (i_root i) ds) true]) = [single_pin e (i_root i) ds]).
+        { cbn [ok_pins flat_map app]. fold (ok_pins (P ++ [EPin (single_pin e (i_root i) ds) true])). rewrite ok_pins_app.
+          replace (ok_pins P) with (@nil pin); [reflexivity|]. symmetry. clear -HP. induction HP as [|ev r Hev _ IH]; [reflexivity|].
+          destruct ev; try contradiction. exact IH. }
+        rewrite Eok. specialize (Hpin ds). cbv zeta in Hpin. rewrite Hpin. cbn [andb].
+        destruct (i_local i) eqn:Hl.
+        -- apply andb_true_iff. split.
+           ++ apply forallb_forall. intros [[cc D] j] Hx. cbn [fst snd]. cbn [puts_from] in Hx.
+              destruct (puts_from_nth _ _ _ _ _ Hx) as [k [res [Hn _]]]. apply nth_error_In in Hn. rewrite puts_app in Hn. cbn [puts flat_map app] in Hn.
+              rewrite app_nil_r in Hn. clear -HP Hn Hl. induction HP as [|ev r Hev _ IH]; [destruct Hn|].
+              destruct ev as [a|c' D' res'|q ok]; try contradiction. cbn [puts flat_map app] in Hn. destruct Hn as [Hn|Hn]; [|auto].
+              injection Hn as <- <- <-. unfold put_ok, dests_ok in Hev. unfold e in Hev. cbn [env_of e_local] in Hev. rewrite Hl in Hev. rewrite Hev. reflexivity.
+           ++ cbn [single_pin pallocs]. unfold e in *. cbn [env_of e_rmin e_alloc] in *. destruct (i_rmin i <? 0)%Z; [reflexivity|].
+              destruct (i_stream i); [contradiction|]. rewrite Ha0. apply olist_eqb_eq. reflexivity.
+        -- cbn [allocs_walk]. assert (Hl' : e_local (env_of i) = false) by exact Hl.
+           rewrite allocs_walk_app. destruct (walk_put_ok (i_rmin i <? 0)%Z ds P Hl' HP) as [W1 W2]. rewrite W1, W2.
+           cbn [allocs_walk andb single_pin pty pallocs]. unfold e. cbn [env_of e_rmin]. destruct (i_rmin i <? 0)%Z; now rewrite listN_eqb_refl.
+  - split; [reflexivity|]. split; [exact H11|]. split; [exact H12|]. split; [exact H13|]. split; [reflexivity|].
+    unfold failure_okb. cbn [is_ok]. rewrite (failure_no_root_pin_single_l e _ _ Hstrict er t H). reflexivity. Qed.
+
+Theorem single_aborted_passes_l r t : single_run_aborted (env_of i) (i_stream i) = (r, t) ->
+  delivered_okb i r t = true /\ partition_okb i r t = true /\ under_limit_okb i r t = true /\ depth_okb i r t = true /\
+  final_pins_okb i r t = true /\ failure_okb i r t = true.
+Proof. intros H. unfold single_run_aborted, single_adds in H. set (e := env_of i) in *.
+  assert (I0 : SInv e [] (mksingle None [] io0)).
+  { constructor; try reflexivity; [constructor|unfold WfS; simpl; tauto|simpl; tauto]. }
+  destruct (add_all (fun b => single_add e (bcid b)) (i_stream i) (mksingle None [] io0)) as [oe st1] eqn:Ha.
+  destruct (add_all_single_spec e _ _ _ _ _ I0 Hstrict Ha) as (_ & Hn & _ & _).
+  assert (Ht : t = chron (sd_io st1) /\ is_ok r = false) by (destruct oe; inversion H; subst; split; reflexivity).
+  destruct Ht as [-> Hr]. unfold delivered_okb, partition_okb, under_limit_okb, final_pins_okb, failure_okb. rewrite Hr, Hns. cbn [negb orb].
+  split; [reflexivity|]. split; [reflexivity|]. split; [reflexivity|].
+  split; [apply single_depth_complete; rewrite Hn; intros q []|]. split; [reflexivity|].
+  rewrite (all_pins_nil_ok _ Hn). reflexivity. Qed.
+End SingleComplete.
+
+(* ---------- every input ---------- *)
+Theorem model_passes_monitors_l i : strict (i_stream i) -> (i_shard i = true -> 0 < i_maxlinks i /\ sizes_by_cid (i_stream i)) ->
+  let '(r, t) := run i in
+  delivered_okb i r t = true /\ partition_okb i r t = true /\ under_limit_okb i r t = true /\ depth_okb i r t = true /\
+  final_pins_okb i r t = true /\ failure_okb i r t = true.
+Proof. intros Hstrict Hsh. destruct (run i) as [r t] eqn:H. unfold run in H.
+  destruct (i_abort i); destruct (i_shard i) eqn:Hs.
+  - destruct (Hsh eq_refl) as [A B]. now apply sharded_aborted_passes_l.
+  - now apply single_aborted_passes_l.
+  - destruct (Hsh eq_refl) as [A B]. now apply sharded_model_passes_l.
+  - now apply single_model_passes_l. Qed.
